@@ -171,7 +171,8 @@ def dtOfYMD (c : YMD) (sec : Rat) : Res DT := mkDT (daysFromCivil c - epochCivil
 
 -- ------------------------------------------------------------------ date.py
 
-/-- `DATE(year, month, day)` -/
+/-- `DATE(year, month, day)`; `EXCEL_EPOCH + delta` sits in `try … except (OverflowError, ValueError)`:
+    a date outside the years a `datetime` can hold is #NUM! -/
 def DATE (year month day : Num) : Res DT :=
   let y0 := pyInt year
   if ¬ (0 ≤ y0 ∧ y0 ≤ 9999) then .err .num else
@@ -181,9 +182,9 @@ def DATE (year month day : Num) : Res DT :=
     match mkDT (daysFromCivil c - epochCivil + (pyInt day - 1)) 0 with
     | .ok r => if r.day < 0 then .err .num else .ok r
     | .err e => .err e
-    | .crash k => .crash k
+    | .crash _ => .err .num
   | .err e => .err e
-  | .crash k => .crash k
+  | .crash _ => .err .num
 
 /-- `utils.number_to_datetime(int(serial_number))` -/
 def serialDate (n : Num) : Res DT := numberToDatetime (.int (pyInt n))
@@ -219,12 +220,14 @@ def ISOWEEKNUM (d : DT) : Res Int :=
 /-- `DAYS(end_date, start_date)`: `Number.cast(end).value - Number.cast(start).value` (floats) -/
 def DAYS (e s : DT) : Res Rat := .ok (datetimeToNumber e - datetimeToNumber s)
 
-/-- `utils.number_to_datetime(int(start_date)) + relativedelta(months=int(months))` with the epoch check -/
+/-- `utils.number_to_datetime(int(start_date)) + relativedelta(months=int(months))` inside
+    `try … except (OverflowError, ValueError)` (→ #NUM!), then the epoch check -/
 def edateCore (start : DT) (months : Num) : Res DT :=
-  (numberToDatetime (.int (dtInt start))).bind fun base =>
-    (addRel base.ymd 0 (pyInt months) none).bind fun c =>
-      (dtOfYMD c base.sec).bind fun edate =>
-        if edate.day < 0 then .err .num else .ok edate
+  match (numberToDatetime (.int (dtInt start))).bind fun base =>
+      (addRel base.ymd 0 (pyInt months) none).bind fun c => dtOfYMD c base.sec with
+  | .ok edate => if edate.day < 0 then .err .num else .ok edate
+  | .err e => .err e
+  | .crash _ => .err .num
 
 /-- `EDATE`: the float `datetime_to_number(edate)` is cast back to a DateTime on return -/
 def EDATE (start : DT) (months : Num) : Res DT :=
